@@ -86,6 +86,15 @@ func init() {
 									break
 								}
 							}
+							// the middle field right-aligned with a blank instead of a zero ("11. 5.1990", "11 51990"): the same day
+							if mi := 2 + len(sep); text[mi] == '0' {
+								bt := text[:mi] + " " + text[mi+1:]
+								bdoy, bnum := conv(bt)
+								res.Evals++
+								if bnum != wantNum || bdoy != wantDOY {
+									res.violate("C12", "blank_padded_field_to_number", fmt.Sprintf("format %s split %d: %q -> day number %d, day of year %d; calendar says %d, %d", dateFormatNames[fi], cent, bt, bnum, bdoy, wantNum, wantDOY), nil)
+								}
+							}
 							if sep == "" {
 								if prevNum >= 0 && num != prevNum+1 {
 									res.violate("C12", "not_consecutive", fmt.Sprintf("format %s: %q has day number %d but the day before had %d", dateFormatNames[fi], text, num, prevNum), nil)
@@ -133,7 +142,7 @@ func init() {
 		rs := runFnSharded("C12", tier, seed, fnShards["C12"], 1200)
 		cases, inc := fnToCases("C12", seed, rs, func(r *FnResult) string { return "crash:date_conversion" })
 		spec := checkSpec{Prop: "C12", Level: "exploration",
-			Rule:   "every calendar date 1901-01-01..2099-12-31 x 4 date formats x separators {none . / -} x century splits that keep a two-digit year unambiguous (quick: lowest, highest and three random admissible splits per year; thorough: every admissible split 0..100) through the real DateConverter / KalenderConverter / KalenderDate (each text also with blanks / tabs around it, as a comma-separated file delivers it), compared with Go's time package; evaluations = text->number conversions, distinct_nontrivial = distinct calendar dates enumerated (all of them are leap-year / month-boundary relevant by construction of the oracle)",
+			Rule:   "every calendar date 1901-01-01..2099-12-31 x 4 date formats x separators {none . / -} x century splits that keep a two-digit year unambiguous (quick: lowest, highest and three random admissible splits per year; thorough: every admissible split 0..100) through the real DateConverter / KalenderConverter / KalenderDate (each text also with blanks / tabs around it, as a comma-separated file delivers it, and with a blank-padded middle field), compared with Go's time package; evaluations = text->number conversions, distinct_nontrivial = distinct calendar dates enumerated (all of them are leap-year / month-boundary relevant by construction of the oracle)",
 			Floors: []string{"years", "dates", "leap_years"}, FloorMin: map[string]int64{"years": 199, "dates": 72683, "leap_years": 49}}
 		extra := map[string]interface{}{"exhaustive": true, "explanation": "the date range of the property is enumerated completely (72,684 dates by the calendar oracle: 199 years x 365 + 49 leap days) in both tiers; tiers differ only in the number of century splits tried for the short formats"}
 		return finishCheck(spec, tier, seed, cases, inc, t0, extra)
